@@ -8,7 +8,7 @@
    proved on the geometric level (iv: every flip lowers the lifted-paraboloid potential by the in-circle determinant); the global
    statement is therefore decided per implementation state by C01_checker_is_spec's checker. *)
 From Coq Require Import ZArith List Bool Arith Lia.
-From SpadeV Require Import Geom.Pred Geom.Lemmas Geom.Potential Obs.State Obs.Spec Obs.SpecProp Obs.SpecProofs Dcel.Raw Dcel.WfCore Gen.DcelOps Tri.Legalize Tri.LegalizeProofs.
+From SpadeV Require Import Geom.Pred Geom.Lemmas Geom.Potential Obs.State Obs.Spec Obs.SpecProp Obs.SpecProofs Dcel.Raw Dcel.WfCore Gen.DcelOps Dcel.ProofsFlip Tri.Legalize Tri.LegalizeProofs Tri.LegalizePotential.
 Import ListNotations.
 Local Open Scope Z_scope.
 
@@ -41,8 +41,7 @@ Proof. vm_compute. repeat split; reflexivity. Qed.
 (* (iv) termination of Lawson flipping, for every point set: a flip taken under the code's condition (apex strictly inside the
    circumcircle) lowers the integer potential  sum over faces of orient(a,b,c) * (|a|^2+|b|^2+|c|^2)  by exactly incircle a b c d >= 1,
    counter-clockwise faces stay counter-clockwise and their potential is never negative; so no flip sequence from a face set l is
-   longer than pot l.  (The link of this bound to the fuel of the executable legalize model is not proved: the model theorems
-   keep the hypothesis `legalize ... = Some _`, and a non-terminating legalize_edge is reported as a hang by the harness watchdog.) *)
+   longer than pot l.  (The link of this bound to the executable legalize model is (v) below.) *)
 Theorem C01_flip_lowers_potential_by_incircle : forall a b c d : pnt,
   tri_pot (a, d, c) + tri_pot (d, b, c) - (tri_pot (a, b, c) + tri_pot (b, a, d)) = - incircle a b c d.
 Proof. exact flip_pot_identity. Qed.
@@ -76,6 +75,32 @@ Theorem C01_legalize_preserves_valid_ccw_triangulation : forall pts fuel fully d
   /\ (forall x, x < length (d_hedges d) -> (e_face d' x = 0 <-> e_face d x = 0)).
 Proof. exact legalize_invariant. Qed.
 
+
+(* (v) the link of the geometric bound to the executable model: the potential of a DCEL state (sum over the half-edges of inner faces,
+   = 3 x the potential of its inner face set) drops by exactly 3 * incircle at every flip the model takes, never rises during
+   legalize and stays non-negative; hence the model NEVER runs out of fuel once fuel > |stack| + 2 * dcel_pot: legalize_edge
+   terminates on every well-formed counter-clockwise state, whatever the point set (no `= Some` hypothesis left). *)
+Theorem C01_model_flip_lowers_potential : forall pts d e, ProofsFlip.DW d -> EdgesCcw pts d -> e < length (d_hedges d) ->
+  is_flagged d e = false -> inner d e -> inner d (rev e) -> should_flip pts d e = true ->
+  (dcel_pot pts (fst (DcelOps.flip_cw d (as_undirected e))) =
+   dcel_pot pts d - 3 * incircle (vpos pts (e_origin d e)) (vpos pts (e_to d e)) (vpos pts (apex d e))
+                                 (vpos pts (apex d (e_rev e))))%Z.
+Proof. exact flip_lowers_dcel_pot_exact. Qed.
+
+Theorem C01_legalize_potential_monotone : forall pts fuel fully d stack b d' b',
+  DWf d -> FacesCcw (obs_of_dcel d) pts -> (forall e, In e stack -> e < length (d_hedges d)) ->
+  legalize pts fuel fully d stack b = Some (d', b') ->
+  (0 <= dcel_pot pts d' <= dcel_pot pts d)%Z.
+Proof. exact legalize_pot_monotone_wf. Qed.
+
+Theorem C01_legalize_terminates : forall pts fuel fully d stack b,
+  DWf d -> FacesCcw (obs_of_dcel d) pts -> (forall e, In e stack -> e < length (d_hedges d)) ->
+  (Z.of_nat (length stack) + 2 * dcel_pot pts d < Z.of_nat fuel)%Z ->
+  exists r, legalize pts fuel fully d stack b = Some r.
+Proof. exact legalize_terminates_wf. Qed.
+Print Assumptions C01_model_flip_lowers_potential.
+Print Assumptions C01_legalize_potential_monotone.
+Print Assumptions C01_legalize_terminates.
 
 Print Assumptions C01_legalize_preserves_valid_ccw_triangulation.
 Print Assumptions C01_checker_is_spec.
